@@ -131,6 +131,8 @@ def robust(it):
     """The instance and every symmetric square sub-operator a Lanczos run could be started on have separated spectra."""
     from linear_operator.operators import DiagLinearOperator, IdentityLinearOperator, TriangularLinearOperator
     singular = "psd-singular" in it.tags
+    if "pivonly" in it.tags:
+        return True
     if it.name in NOLANCZOS:
         it.tags.add("nolanczos")     # diagonal operators: repeated eigenvalues allowed, Lanczos-on-the-whole ops are skipped
         return True
@@ -190,6 +192,63 @@ def own_instances(rng, dtype, batch, n):
     s1 = C.ri(rng, (*batch, 1, 1), 2, 5, dtype)
     out.append(C.Inst("Dense[1x1]", lambda c, a=s1: (lambda t: (DenseLinearOperator(t), a, [t]))(c(a)), psd=True))
     out.append(C.Inst("Kronecker[1x1,n]", lambda c, a=s1, b=K2: (lambda s, t: (KroneckerProductLinearOperator(s, t), C.kron(a, b), [s, t]))(c(a), c(b)), psd=True))
+    # upper-orientation Cholesky operator: R upper triangular, meaning RᵀR
+    from linear_operator.operators import CholLinearOperator, TriangularLinearOperator, ToeplitzLinearOperator
+    Ru = torch.triu(C.ri(rng, (*batch, n, n), -2, 2, dtype), 1) + torch.diag_embed(C.ri(rng, (*batch, n), 1, 3, dtype))
+    out.append(C.Inst("Chol[upper]", lambda c, U=Ru: (lambda t: (CholLinearOperator(TriangularLinearOperator(t, upper=True), upper=True), U.mT @ U, [t]))(c(Ru)), psd=True))
+    # batch whose members reach the pivoted-Cholesky tolerance after different numbers of pivots:
+    # member 0 is numerically rank one (tolerance reached after one pivot), the others are well conditioned
+    if batch:
+        v = C.ri(rng, (n, 1), 1, 3, dtype)
+        P = C.psd_int(rng, batch, n, dtype).clone()
+        P.reshape(-1, n, n)[0] = 100.0 * (v @ v.mT) + 1e-3 * eye(n)
+        it = C.Inst("Dense[pivrank]", lambda c, a=P: (lambda t: (DenseLinearOperator(t), a, [t]))(c(a)), psd=True)
+        it.tags.add("pivonly")
+        out.append(it)
+    # derived operators: cat_rows / add_low_rank (cache updated roots) and add_jitter
+    O_ = 2
+    for bname in ("Dense", "Kronecker", "Toeplitz"):
+        if bname == "Dense":
+            A0 = C.psd_int(rng, batch, n, dtype)
+            mk0 = lambda c, a=A0: (DenseLinearOperator(c(a)), a)
+        elif bname == "Kronecker":
+            Ka, Kb = C.psd_int(rng, batch, 2, dtype), C.psd_int(rng, batch, n, dtype)
+            mk0 = lambda c, a=Ka, b=Kb: (KroneckerProductLinearOperator(c(a), c(b)), C.kron(a, b))
+        else:
+            col = C.ri(rng, (*batch, n), 0, 2, dtype)
+            col[..., 0] = col[..., 0] + 2 * n
+            mk0 = lambda c, a=col: (ToeplitzLinearOperator(c(a)), C.toeplitz_dense(a))
+        N0 = mk0(lambda t: t)[1].shape[-1]
+        Bc = C.ri(rng, (*batch, O_, N0), -2, 2, dtype)
+        Dn = Bc @ Bc.mT + 2 * eye(O_)
+        Vl = C.ri(rng, (*batch, N0, 2), -2, 2, dtype)
+
+        def mk_cat(c, mk0=mk0, Bc=Bc, Dn=Dn):
+            op0, a = mk0(c)
+            b, d = c(Bc), c(Dn)
+            return op0.cat_rows(b, d), torch.cat([torch.cat([a, Bc.mT], -1), torch.cat([Bc, Dn], -1)], -2), [b, d]
+
+        def mk_alr(c, mk0=mk0, Vl=Vl):
+            op0, a = mk0(c)
+            v = c(Vl)
+            return op0.add_low_rank(v), a + Vl @ Vl.mT, [v]
+
+        def mk_jit(c, mk0=mk0):
+            op0, a = mk0(c)
+            return op0.add_jitter(2.0), a + 2.0 * torch.eye(a.shape[-1], dtype=dtype), []
+        for nm, mk, tg in ((f"CatRows({bname})", mk_cat, "derived-cache"), (f"AddLowRank({bname})", mk_alr, "derived-cache"),
+                           (f"AddJitter({bname})", mk_jit, "derived")):
+            if nm == "CatRows(Toeplitz)":
+                continue
+            with warnings.catch_warnings():
+                warnings.simplefilter("ignore")
+                try:
+                    it = C.Inst(nm, mk, psd=True)
+                except Exception:
+                    continue
+            it.tags.add(tg)
+            it.tags.add("derived")
+            out.append(it)
     Bk = C.psd_int(rng, (*batch, 2), 2, dtype)
     Bk2 = C.psd_int(rng, (*batch, 2), 2, dtype)
     out.append(C.Inst("BlockDiag(Kronecker)", lambda c, a=Bk, b=Bk2: (lambda s, t: (BlockDiagLinearOperator(KroneckerProductLinearOperator(s, t)), C.block_diag_dense(C.kron(a, b)), [s, t]))(c(a), c(b)), psd=True))
@@ -301,9 +360,15 @@ def run_op(it, opname, method, env):
             elif opname == "tl.chol":
                 out["res"] = torch.linalg.cholesky(op, upper=method) if method else torch.linalg.cholesky(op)
             elif opname == "root":
-                out["res"] = op.root_decomposition(method=method)
+                # method=None is passed positionally-absent: derived operators (cat_rows, add_low_rank) cache their
+                # updated roots under the argument-free key
+                out["res"] = op.root_decomposition(method=method) if method is not None else op.root_decomposition()
             elif opname == "rootinv":
-                out["res"] = op.root_inv_decomposition(method=method)
+                out["res"] = op.root_inv_decomposition(method=method) if method is not None else op.root_inv_decomposition()
+            elif opname == "pivchol":
+                from types import SimpleNamespace
+                from linear_operator import settings as _s
+                out["res"] = SimpleNamespace(root=op.pivoted_cholesky(rank=_s.max_root_decomposition_size.value()))
             elif opname == "eigh":
                 out["res"] = op.eigh()
             elif opname == "tl.eigh":
@@ -353,6 +418,8 @@ def check_result(it, opname, method, r, path, mrds):
         if N > 1 and bool((torch.diagonal(L, dim1=-1, dim2=-2) <= 0).any()):
             fails.append("non-positive diagonal of the Cholesky factor")
         return fails
+    if opname == "pivchol":
+        opname = "root"
     if opname in ("root", "rootinv"):
         target = A if opname == "root" else torch.linalg.inv(A.double()).to(dtype)
         try:
@@ -393,7 +460,7 @@ def check_result(it, opname, method, r, path, mrds):
             e = relerr(rec, target)
             if e > tol:
                 fails.append(f"R Rᵀ differs from {'A' if opname == 'root' else 'A⁻¹'} by {e:.3g} (rel, tol {tol:.1g}, path {path})")
-            if opname == "root" and hasattr(res, "to_dense"):
+            if opname == "root" and hasattr(res, "to_dense") and hasattr(res, "root"):
                 e2 = relerr(res.to_dense(), A)
                 if e2 > tol:
                     fails.append(f"root_decomposition().to_dense() differs from A by {e2:.3g}")
@@ -524,7 +591,18 @@ def mstr(m):
 
 
 # ------------------------------------------------------------------------------------------- main
-def settings_grid(chk, N, opname, method, quick):
+def settings_grid(chk, N, opname, method, quick, it=None):
+    if opname == "pivchol":
+        res = settings_grid(chk, N, "root", "pivoted_cholesky", quick, it)
+        return [c for c in res if c[1] in ("0", "def")] or res
+    res = _settings_grid(chk, N, opname, method, quick)
+    if it is not None and "derived-cache" in it.tags:
+        # the updated roots are built from the parent's roots: only claimed when the parent takes the Cholesky path
+        res = [c for c in res if c[1] in ("N", "def")]
+    return res
+
+
+def _settings_grid(chk, N, opname, method, quick):
     """(mcs, mcs_label, mrds, mrds_label, fast) combinations for one op."""
     mcs_all = [(0, "0"), (max(N - 1, 0), "N-1"), (N, "N"), (DEFAULT_MCS, "def")]
     mr_all = [(max(2, N - 2), "lt"), (N, "eq"), (N + 5, "gt")]
@@ -539,6 +617,8 @@ def settings_grid(chk, N, opname, method, quick):
             must = [c for c in combos if (c[1] in ("0", "def") and c[3] == "gt" and c[4])]
             rest = [c for c in combos if c not in must]
             combos = must + chk.rng.sample(rest, 4)
+            if not any(c[1] == "N" for c in combos):
+                combos.append(next(c for c in rest if c[1] == "N"))
     else:
         combos = [(mcs, ml, N + 5, "gt", True) for mcs, ml in ((0, "0"), (DEFAULT_MCS, "def"))]
         if quick and opname.startswith("tl."):
@@ -548,6 +628,8 @@ def settings_grid(chk, N, opname, method, quick):
 
 def ops_for(it):
     singular = "psd-singular" in it.tags
+    if "pivonly" in it.tags:
+        return [("root", "pivoted_cholesky"), ("pivchol", None)]
     ops = []
     if not singular:
         ops += [("chol", False), ("chol", True), ("tl.chol", False), ("tl.chol", True)]
@@ -556,13 +638,15 @@ def ops_for(it):
     else:
         ops += [("root", m) for m in ("cholesky", "symeig", "svd")] + [("diag", "symeig")]
     ops += [("eigh", None), ("eigvalsh", None), ("tl.eigh", None), ("tl.eigvalsh", None), ("svd", None), ("tl.svd", None)]
+    if not singular and ("derived" in it.tags or it.name in ("Dense[psd]", "Toeplitz", "PsdSum")):
+        ops.append(("pivchol", None))
     return ops
 
 
 def cell_id(it, batch, dtype, opname, method, ml, rl, fast, path):
     ev = "|ev=diag" if it.name in EV_DIAG or any(it.name.endswith("(" + e + ")") for e in EV_DIAG) else ""
     dt = "f64" if dtype == torch.float64 else "f32"
-    m = "" if opname in ("eigh", "eigvalsh", "tl.eigh", "tl.eigvalsh", "svd", "tl.svd") else \
+    m = "" if opname in ("eigh", "eigvalsh", "tl.eigh", "tl.eigvalsh", "svd", "tl.svd", "pivchol") else \
         ("/upper=" + str(int(bool(method))) if "chol" in opname else f"/m={mstr(method)}>{path}")
     return f"C06/{it.name}[b={batch}|{dt}{ev}]/{opname}{m}/mcs={ml}/mrds={rl}/fast={int(fast)}"
 
@@ -570,7 +654,8 @@ def cell_id(it, batch, dtype, opname, method, ml, rl, fast, path):
 def evaluate(chk, it, batch, dtype, opname, method, combo, table, lines, pending):
     mcs, ml, mr, rl, fast = combo
     N = it.dense.shape[-1]
-    path = eff_path(opname, method, N, mcs, fast, it.name) if opname in ("root", "rootinv", "diag") else "direct"
+    path = eff_path(opname, method, N, mcs, fast, it.name) if opname in ("root", "rootinv", "diag") else \
+        ("pivoted_cholesky" if opname == "pivchol" else "direct")
     if path in ("lanczos", "pinverse-lanczos") and dtype == torch.float32:
         return
     if "nolanczos" in it.tags and path == "lanczos" and (opname == "diag" or method == "diagonalization"):
@@ -591,7 +676,7 @@ def evaluate(chk, it, batch, dtype, opname, method, combo, table, lines, pending
     if fails:
         chk.violation(cell, "; ".join(fails)[:400] + f" | A[0]={it.dense.reshape(-1, N, N)[0].tolist()}", payload)
     # model correspondence: primitives + class
-    if opname in ("root", "rootinv", "diag"):
+    if opname in ("root", "rootinv", "diag") and "derived" not in it.tags:
         op = r.get("op") or it.build()
         kind, ns = hook_kind(op, table)
         if kind is not None:
@@ -690,8 +775,34 @@ def exact_cells(chk, lines, pending):
         if perm_ok:
             # eigenvalues in the order eigh returned them: w' = diag(Vᵀ A V)
             wq = torch.diagonal(V.T @ op.to_dense() @ V).tolist()
-            lines.append(f"svd 3 {fmt_mat(V.tolist())} {fmt_list(wq)}")
+            lines.append(f"{'svd' if bad else 'svdpos'} 3 {fmt_mat(V.tolist())} {fmt_list(wq)}")
             pending.append((cell, ("svd", U.tolist(), S.tolist(), V.tolist()), bool(bad), {"w": w}))
+
+
+def diag_svd_cells(chk):
+    """DiagLinearOperator._svd on PSD-singular diagonals (a zero entry, first or not)."""
+    from linear_operator.operators import DiagLinearOperator
+    for d in ([0.0, 1.0, 2.0], [2.0, 0.0, 3.0], [1.0, 4.0, 2.0]):
+        op = DiagLinearOperator(torch.tensor(d, dtype=torch.float64))
+        cell = f"C06/exact/svd-diag/{'zero-first' if d[0] == 0 else ('zero-entry' if 0.0 in d else 'pd')}"
+        chk.case(f"{cell} d={d}")
+        chk.count("exact:svd-diag")
+        try:
+            U, S, V = op.svd()
+            U, V = U.to_dense(), V.to_dense()
+        except Exception as e:
+            chk.violation(cell, f"raised {type(e).__name__}: {e}"[:300], {"d": d})
+            continue
+        eye = torch.eye(3, dtype=torch.float64)
+        bad = []
+        if not torch.allclose(U @ torch.diag(S) @ V.T, op.to_dense()):
+            bad.append(f"U diag(S) Vᵀ ≠ A (V={V.tolist()})")
+        if not torch.allclose(U.T @ U, eye) or not torch.allclose(V.T @ V, eye):
+            bad.append(f"U or V not orthogonal (V={V.tolist()})")
+        if bool((S < 0).any()):
+            bad.append("negative singular value")
+        if bad:
+            chk.violation(cell, "; ".join(bad)[:400], {"d": d})
 
 
 def translator_crosscheck(chk, facts):
@@ -799,6 +910,7 @@ def run(chk, only=None):
     translator_crosscheck(chk, facts)
     lines, pending = [], []
     exact_cells(chk, lines, pending)
+    diag_svd_cells(chk)
     quick = chk.tier == "quick"
     for pi, (dtype, batch, n, names, do_wrap) in enumerate(build_plan(chk)):
         insts = plan_instances(chk, chk.seed, pi, dtype, batch, n, names, do_wrap)
@@ -806,9 +918,9 @@ def run(chk, only=None):
             it.n0, it.plan = n, pi
             N = it.dense.shape[-1]
             for opname, method in ops_for(it):
-                if dtype == torch.float32 and (method in ("lanczos", "pivoted_cholesky") or opname == "diag" and method == "lanczos"):
+                if dtype == torch.float32 and (method in ("lanczos", "pivoted_cholesky") or opname == "pivchol" or opname == "diag" and method == "lanczos"):
                     continue
-                for combo in settings_grid(chk, N, opname, method, quick):
+                for combo in settings_grid(chk, N, opname, method, quick, it):
                     ev = evaluate(chk, it, batch, dtype, opname, method, combo, table, lines, pending)
                     if ev is None:
                         continue
@@ -838,8 +950,11 @@ def replay(chk, payload):
             if it.name == p["inst"]:
                 mcs, ml, mr, rl, fast = p["combo"]
                 N = it.dense.shape[-1]
-                path = eff_path(p["op"], p["method"], N, mcs, fast, it.name) if p["op"] in ("root", "rootinv", "diag") else "direct"
+                path = eff_path(p["op"], p["method"], N, mcs, fast, it.name) if p["op"] in ("root", "rootinv", "diag") else \
+                    ("pivoted_cholesky" if p["op"] == "pivchol" else "direct")
                 r = run_op(it, p["op"], p["method"], Env(mcs, mr, fast, p["seed"]))
+                r["compressible"] = compressible(r.get("op"), c06_factor.generate()["overrides"])
+                r["kind"] = hook_kind(r["op"], c06_factor.generate()["overrides"])[0] if r.get("op") is not None else None
                 fails = check_result(it, p["op"], p["method"], r, path, mr)
                 chk.case(json.dumps(p))
                 found = True
